@@ -292,13 +292,183 @@ theorem C13_banned_refused (n : Net) (t : Int) (p : Peer) (hb : (isBanned n.stor
   · simp only [hp, ↓reduceIte]
     exact ⟨trivial, trivial, trivial, fun h => h⟩
 
+/-! ## `IsBanned` is a function of the ban store -/
+
+theorem isBanned_true_iff (s : State) (t : Int) (p : Peer) :
+    (isBanned s t p).2 = true ↔ ∃ r e, (step s t (.status p.target)).2 = .banned r e := by
+  simp only [isBanned]
+  generalize step s t (.status p.target) = x
+  obtain ⟨s', o⟩ := x
+  cases o <;> simp
+
+/-- **The answer of `IsBanned` depends only on the store content and the IP
+key** — not on the port, the spelling, or which questions were asked before:
+it is true exactly when the store holds an unexpired record under the key of the
+address's network; hence any two addresses with one key get one answer in every
+store.  (`isBanned : State → Int → Peer → State × Bool` has no other input; that
+the real `IsBanned` has none either — it touches no field of the ChainService
+but the ban store — is `C13_source_facts`.) -/
+theorem C13_isBanned_pure (s : State) (now : Int) (p : Peer) :
+    ((isBanned s now p).2 = true ↔
+      ∃ k e r, keyOf p.target = some k ∧ lookup s.recs k = some (e, r) ∧ now < e * 1000) ∧
+    (∀ q : Peer, keyOf q.target = keyOf p.target → (isBanned s now q).2 = (isBanned s now p).2) := by
+  have main : ∀ p : Peer, ((isBanned s now p).2 = true ↔
+      ∃ k e r, keyOf p.target = some k ∧ lookup s.recs k = some (e, r) ∧ now < e * 1000) := by
+    intro p
+    rw [isBanned_true_iff]
+    cases hk : keyOf p.target with
+    | none =>
+      constructor
+      · intro ⟨r, e, h⟩; exact absurd h ((step_status_none s now _ hk).2 r e)
+      · intro ⟨k, _, _, h, _⟩; exact absurd h (by simp)
+    | some k =>
+      rw [step_status_some s now _ k hk]
+      cases hl : lookup s.recs k with
+      | none =>
+        constructor
+        · intro ⟨r, e, h⟩; exact absurd h (by simp)
+        · intro ⟨k', e, r, h1, h2, _⟩
+          have : k' = k := (Option.some.inj h1).symm
+          subst this; rw [hl] at h2; exact absurd h2 (by simp)
+      | some w =>
+        obtain ⟨e, r⟩ := w
+        by_cases hexp : now ≥ e * 1000
+        · simp only [hexp, ↓reduceIte]
+          constructor
+          · intro ⟨r', e', h⟩; exact absurd h (by simp)
+          · intro ⟨k', e', r', h1, h2, h3⟩
+            have : k' = k := (Option.some.inj h1).symm
+            subst this; rw [hl] at h2
+            have he : e = e' := congrArg Prod.fst (Option.some.inj h2)
+            subst he; exact absurd hexp (by omega)
+        · simp only [hexp, ↓reduceIte]
+          constructor
+          · intro _; exact ⟨k, e, r, rfl, hl, by omega⟩
+          · intro _; exact ⟨r, e * 1000, rfl⟩
+  refine ⟨main p, fun q hq => ?_⟩
+  have hp := main p
+  have hq' := main q
+  rw [hq] at hq'
+  exact Bool.eq_iff_iff.mpr (hq'.trans hp.symm)
+
+/-- ChainService-level calls and the store calls they make -/
+inductive CsOp where
+  | isBanned (tg : Target)             -- IsBanned(addr)
+  | banPeer (tg : Target) (reason : Nat)   -- BanPeer(addr, reason): BanIPNet(…, reason, BanDuration)
+  | unbanPeer (tg : Target)            -- UnbanPeer(addr, _)
+deriving DecidableEq, Repr
+
+def CsOp.toOp : CsOp → Op
+  | .isBanned tg => .status tg
+  | .banPeer tg r => .ban tg r banDurationMs
+  | .unbanPeer tg => .unban tg
+
+/-- the set of banned networks after a history of calls (what the driver's oracle keeps) -/
+def banSetRun (b : BanSet) : List (Int × CsOp) → BanSet
+  | [] => b
+  | (_, .banPeer tg _) :: rest => banSetRun (match idOf tg with | some id => b.ban id | none => b) rest
+  | (_, .unbanPeer tg) :: rest => banSetRun (match idOf tg with | some id => b.unban id | none => b) rest
+  | (_, .isBanned _) :: rest => banSetRun b rest
+
+theorem mem_ban (b : BanSet) (id0 id : NetId) : id ∈ b.ban id0 ↔ id = id0 ∨ id ∈ b := by
+  simp only [BanSet.ban]
+  by_cases h : b.contains id0 = true
+  · simp only [h, ↓reduceIte]
+    constructor
+    · exact Or.inr
+    · intro h'
+      cases h' with
+      | inl e => subst e; exact List.contains_iff_mem.mp h
+      | inr m => exact m
+  · simp only [h]
+    exact List.mem_cons
+
+theorem mem_unban (b : BanSet) (id0 id : NetId) : id ∈ b.unban id0 ↔ id ∈ b ∧ id ≠ id0 := by
+  simp only [BanSet.unban, List.mem_filter, Bool.not_eq_eq_eq_not, Bool.not_true, beq_eq_false_iff_ne, ne_eq]
+
+/-- **Within the ban duration `IsBanned` answers membership in the set of banned
+networks**, whatever spellings the bans, unbans and earlier questions used and
+in whatever order they came: for every history of ChainService-level calls at
+non-decreasing times starting at `T0`, and every query at `now < T0 + BanDuration
+− 1 s`, the store says "banned" exactly when the queried network is in
+`banSetRun`.  This is the oracle `isBannedOk` of the `c13s` driver cases. -/
+theorem C13_isBanned_tracks_bans (T0 : Int) (h : List (Int × CsOp)) (now : Int) (tg : Target) (id : NetId)
+    (hm : monoFrom T0 (h.map fun x => (x.1, x.2.toOp))) (hn : endTime T0 (h.map fun x => (x.1, x.2.toOp)) ≤ now)
+    (hwin : now < T0 + banDurationMs - 1000) (hid : idOf tg = some id) :
+    (∃ r e, (step (run {} (h.map fun x => (x.1, x.2.toOp))) now (.status tg)).2 = .banned r e) ↔
+      id ∈ banSetRun [] h := by
+  -- the ban set agrees with `lastBan`, and every recorded ban ends at or after T0 + BanDuration
+  have key : ∀ (h : List (Int × CsOp)) (T : Int) (b : BanSet) (o : Oracle), T0 ≤ T →
+      monoFrom T (h.map fun x => (x.1, x.2.toOp)) →
+      (∀ id, id ∈ b ↔ (o id).isSome = true) → (∀ id r, o id = some r → T0 + banDurationMs ≤ r.lo) →
+      (∀ id, id ∈ banSetRun b h ↔ (lastBan o (h.map fun x => (x.1, x.2.toOp)) id).isSome = true) ∧
+      (∀ id r, lastBan o (h.map fun x => (x.1, x.2.toOp)) id = some r → T0 + banDurationMs ≤ r.lo) := by
+    intro h
+    induction h with
+    | nil => intro T b o _ _ hag hlo; exact ⟨hag, hlo⟩
+    | cons x rest ih =>
+      intro T b o hT hmono hag hlo
+      obtain ⟨t, op⟩ := x
+      simp only [List.map_cons, monoFrom] at hmono
+      have hTt : T0 ≤ t := Int.le_trans hT hmono.1
+      cases op with
+      | isBanned tg' =>
+        simp only [List.map_cons, banSetRun, lastBan, CsOp.toOp, Oracle.note]
+        exact ih t b o hTt hmono.2 hag hlo
+      | banPeer tg' r' =>
+        simp only [List.map_cons, banSetRun, lastBan, CsOp.toOp, Oracle.note]
+        cases hid' : idOf tg' with
+        | none => exact ih t b o hTt hmono.2 hag hlo
+        | some id0 =>
+          refine ih t _ _ hTt hmono.2 ?_ ?_
+          · intro id1
+            rw [mem_ban]
+            by_cases e : id1 = id0
+            · simp only [e, Oracle.set, ↓reduceIte, true_or, Option.isSome_some]
+            · simp only [e, Oracle.set, ↓reduceIte, false_or]; exact hag id1
+          · intro id1 r1 h1
+            by_cases e : id1 = id0
+            · simp only [e, Oracle.set, ↓reduceIte, Option.some.injEq] at h1
+              rw [← h1]; simp only; omega
+            · simp only [e, Oracle.set, ↓reduceIte] at h1; exact hlo id1 r1 h1
+      | unbanPeer tg' =>
+        simp only [List.map_cons, banSetRun, lastBan, CsOp.toOp, Oracle.note]
+        cases hid' : idOf tg' with
+        | none => exact ih t b o hTt hmono.2 hag hlo
+        | some id0 =>
+          refine ih t _ _ hTt hmono.2 ?_ ?_
+          · intro id1
+            rw [mem_unban]
+            by_cases e : id1 = id0
+            · simp only [e, Oracle.set, ↓reduceIte, ne_eq, not_true_eq_false, and_false, Option.isSome_none,
+                Bool.false_eq_true]
+            · simp only [e, Oracle.set, ↓reduceIte, ne_eq, not_false_eq_true, and_true]; exact hag id1
+          · intro id1 r1 h1
+            by_cases e : id1 = id0
+            · simp only [e, Oracle.set, ↓reduceIte] at h1; exact absurd h1 (by simp)
+            · simp only [e, Oracle.set, ↓reduceIte] at h1; exact hlo id1 r1 h1
+  obtain ⟨hag, hlo⟩ := key h T0 [] Oracle.empty (Int.le_refl _) hm
+    (fun id => by simp [Oracle.empty]) (fun id r hr => by simp [Oracle.empty] at hr)
+  obtain ⟨hsome, hnone⟩ := C13_status_explicit T0 _ now tg id hm hn hid
+  rw [hag id]
+  cases hl : lastBan Oracle.empty (h.map fun x => (x.1, x.2.toOp)) id with
+  | none =>
+    rw [hnone hl]
+    simp
+  | some b =>
+    have hb := hlo id b hl
+    have := (hsome b hl).1 (by omega)
+    rw [this]
+    simp
+
 /-- The facts regenerated from banman/*.go and neutrino.go on this run, on which
 the models above rely: key layout and To4/To16 normalisation, default masks,
 port stripping, masked IP with the mask as given; the stored value is the Unix
 SECONDS of `now + duration`; `Status` deletes when `!now.Before(expiry)`;
 `OnVersion` tests WITNESS and CF, then `BanPeer(addr, NoCompactFilters)`,
 `Disconnect`, return; `handleAddPeerMsg` and `outboundPeerConnected` test
-`IsBanned` before recording / creating the peer; `IsBanned` and `BanPeer` go
+`IsBanned` before recording / creating the peer; `IsBanned` reads the store on
+every call (it touches no ChainService field but `banStore`: no memo); `IsBanned` and `BanPeer` go
 through `ParseIPNet(addr, nil)` and the store with `BanDuration`; `BanPeer`
 disconnects `PeerByAddr(addr)` and then every peer of `s.Peers()` whose address
 parses (`ParseIPNet(sp.Addr(), nil)`) to the banned network; every other `BanPeer` call site passes one of
@@ -315,11 +485,26 @@ theorem C13_source_facts :
     Gen.Ban.onVersionServiceTest = true ∧ Gen.Ban.onVersionBans = true ∧ Gen.Ban.onVersionDisconnects = true ∧
     Gen.Ban.requiredServiceFlags = ["wire.SFNodeWitness", "wire.SFNodeCF"] ∧
     Gen.Ban.addPeerRefusesBanned = true ∧ Gen.Ban.outboundRefusesBanned = true ∧
-    Gen.Ban.isBannedUsesStore = true ∧ Gen.Ban.banPeerUsesStore = true ∧ Gen.Ban.banPeerDisconnects = true ∧
+    Gen.Ban.isBannedUsesStore = true ∧ Gen.Ban.isBannedFields = ["banStore"] ∧
+    Gen.Ban.isBannedReturns = ["false", "false", "banStatus.Banned"] ∧
+    Gen.Ban.isBannedFirstStmt = "ipNet,err:=banman.ParseIPNet(addr,nil)" ∧ Gen.Ban.banPeerUsesStore = true ∧ Gen.Ban.banPeerDisconnects = true ∧
     Gen.Ban.banPeerDisconnectsNetwork = true ∧
     (∀ s, s ∈ Gen.Ban.banPeerSites → s ∈ ["query.go:banman.InvalidBlock", "blockmanager.go:banman.InvalidFilterHeader",
       "blockmanager.go:banman.InvalidFilterHeaderCheckpoint"]) ∧
     Gen.Ban.banPeerSites.length = 8 := by decide
+
+/-! ### Non-vacuity (ChainService level) -/
+/-- query before the ban under one spelling, ban under another (other port, built by hand as 4 bytes), query again -/
+def exCs : List (Int × CsOp) :=
+  [(10, .isBanned exAddr),
+   (20, .banPeer { via := .parse, ip := [1, 2, 3, 4], mask := none, port := some 18445 } 1),
+   (30, .isBanned { via := .parse, ip := v4Prefix ++ [1, 2, 3, 4], mask := none, port := some 9 }),
+   (40, .unbanPeer { via := .parse, ip := v4Prefix ++ [9, 9, 9, 9], mask := none })]
+example : monoFrom 0 (exCs.map fun x => (x.1, x.2.toOp)) := by simp [monoFrom, exCs, CsOp.toOp]
+example : endTime 0 (exCs.map fun x => (x.1, x.2.toOp)) ≤ 50 ∧ (50 : Int) < 0 + banDurationMs - 1000 := by decide
+example : exId ∈ banSetRun [] exCs := by decide
+example : outs {} (exCs.map fun x => (x.1, x.2.toOp)) = [.notBanned, .ok, .banned 1 86400000, .ok] := by decide
+example : (isBanned (run {} (exCs.map fun x => (x.1, x.2.toOp))) 50 exPeerA).2 = false := by decide
 
 /-! ### Non-vacuity (enforcement) -/
 example : hasRequired 1101 = true ∧ hasRequired 1037 = false ∧ hasRequired 8 = false := by decide
